@@ -150,6 +150,10 @@ class ActionContext(abc.ABC):
         if self.location_action.condition is None or len(self.location_action.condition.strip()) == 0:
             return True
         result = self.trigger_context.evaluate_expression(self.location_action.condition)
+        if isinstance(result, BaseException):
+            # the condition failed to evaluate (the error is returned not raised), a failed condition is not met
+            # whatever the text of the error is
+            return False
         return str2bool(str(result))
 
 
